@@ -1,11 +1,105 @@
 //! Projections of a compilation used by property C13 (engine `compile`, projection names `c13:<name>`).
+//!
+//! `c13:diags`         every diagnostic after `into_updated`, in recording order: `code/level/span@file/scope`; the
+//!                     span is written in full for `Deprecated` (the model knows where type references are) and as
+//!                     `*` for everything else (positions inside doc comments belong to C09/C16); no message text.
+//! `c13:diags-sorted`  the same entries sorted (random programs with many lints: levels matter, not the order
+//!                     in which the phases of the compiler happened to record them).
+//! `c13:frame/<options>/<files>/<allow arguments|->`
+//!                     frame check done on this side: the case's own files+options are the variant WITH the
+//!                     suppression, the projection name carries the variant WITHOUT it (same syntax as the case
+//!                     fields). Both are compiled; everything must be identical except
+//!                       * the AST dump (`file_ast`) of the first may contain one more `allow(<arguments>)` attribute,
+//!                       * levels may go from Warning to Allowed (never anything else, never an error).
+//!                     Output `frame-ok changed=<k> errors=<n>` (k = number of levels that differ) or `frame-FAIL …`.
 #![allow(unused_imports, dead_code)]
 use crate::compile::*;
 use slicec::compilation_state::CompilationState;
+use slicec::diagnostics::{Diagnostic, DiagnosticLevel};
 use slicec::grammar::*;
 use slicec::slice_options::SliceOptions;
 
+fn lvl(l: DiagnosticLevel) -> &'static str {
+    match l { DiagnosticLevel::Error => "E", DiagnosticLevel::Warning => "W", DiagnosticLevel::Allowed => "A" }
+}
+
+fn entries(diags: &[Diagnostic]) -> Vec<String> {
+    diags.iter().map(|d| {
+        let span = match d.span() {
+            None => "-".to_string(),
+            Some(s) if d.code() == "Deprecated" => format!("{}:{}:{}:{}@{}", s.start.row, s.start.col, s.end.row, s.end.col, s.file),
+            Some(s) => format!("*@{}", s.file),
+        };
+        // errors are shown as `error` (which error it is belongs to C04); a lint is whatever `Lint` declares
+        let code = if slicec::diagnostics::Lint::ALLOWABLE_LINT_IDENTIFIERS.contains(&d.code()) { d.code() } else { "error" };
+        format!("{}/{}/{}/{}", code, lvl(d.level()), span, d.scope().map_or("-".to_string(), |s| hs(s)))
+    }).collect()
+}
+
+fn join(v: Vec<String>) -> String { if v.is_empty() { "-".into() } else { v.join(";") } }
+
+/// everything about a diagnostic except its level
+fn frame_key(d: &Diagnostic) -> String {
+    let span = |s: Option<&slicec::slice_file::Span>| s.map_or("-".to_string(), |s| format!("{}:{}:{}:{}@{}", s.start.row, s.start.col, s.end.row, s.end.col, s.file));
+    let notes: Vec<String> = d.notes().iter().map(|n| format!("{}@{}", n.message, span(n.span.as_ref()))).collect();
+    format!("{}|{}|{}|{}|{}", d.code(), span(d.span()), d.scope().cloned().unwrap_or_else(|| "-".into()), d.message(), notes.join("~"))
+}
+
+/// `with` equals `without`, or `without` with exactly one more attribute entry `entry` in some attribute list
+fn differs_by_one_entry(with: &str, without: &str, entry: Option<&str>) -> bool {
+    if with == without { return true; }
+    let Some(entry) = entry else { return false };
+    let mut from = 0;
+    while let Some(p) = with[from..].find(entry) {
+        let i = from + p;
+        let j = i + entry.len();
+        let mut cands: Vec<String> = vec![format!("{}{}", &with[..i], &with[j..])];
+        if with[j..].starts_with(',') { cands.push(format!("{}{}", &with[..i], &with[j + 1..])); }
+        if with[..i].ends_with(',') { cands.push(format!("{}{}", &with[..i - 1], &with[j..])); }
+        if cands.iter().any(|c| c == without) { return true; }
+        from = i + 1;
+    }
+    false
+}
+
+fn frame(state: CompilationState, options: SliceOptions, spec: &str) -> String {
+    let parts: Vec<&str> = spec.split('/').collect();
+    if parts.len() != 3 { return "frame-FAIL bad projection arguments".into(); }
+    let Some(base) = compile(parts[1], parts[0]) else { return "frame-FAIL bad baseline files".into() };
+    let entry = if parts[2] == "-" { None } else {
+        Some(format!("{}({})", hs("allow"), parts[2].split(',').map(|a| hs(a)).collect::<Vec<_>>().join(",")))
+    };
+    let ast_with: String = state.files.iter().map(file_ast).collect::<Vec<_>>().join("|");
+    let ast_base: String = base.state.files.iter().map(file_ast).collect::<Vec<_>>().join("|");
+    if !differs_by_one_entry(&ast_with, &ast_base, entry.as_deref()) {
+        return format!("frame-FAIL the AST differs by more than the attribute: {}", short_diff(&ast_base, &ast_with));
+    }
+    let with = state.diagnostics.into_updated(&state.ast, &state.files, &options);
+    let without = base.state.diagnostics.into_updated(&base.state.ast, &base.state.files, &base.options);
+    if with.len() != without.len() {
+        return format!("frame-FAIL {} diagnostics with the suppression, {} without", with.len(), without.len());
+    }
+    let mut changed = 0;
+    for (i, (a, b)) in with.iter().zip(without.iter()).enumerate() {
+        if frame_key(a) != frame_key(b) {
+            return format!("frame-FAIL diagnostic {} differs beyond its level: {} vs {}", i, frame_key(a), frame_key(b));
+        }
+        if a.level() != b.level() {
+            if !(b.level() == DiagnosticLevel::Warning && a.level() == DiagnosticLevel::Allowed) {
+                return format!("frame-FAIL diagnostic {} ({}) went from {} to {}", i, a.code(), lvl(b.level()), lvl(a.level()));
+            }
+            changed += 1;
+        }
+    }
+    let errors = with.iter().filter(|d| d.level() == DiagnosticLevel::Error).count();
+    format!("frame-ok changed={} errors={}", changed, errors)
+}
+
 pub fn project(state: CompilationState, options: SliceOptions, name: &str) -> String {
-    let _ = (&state, &options);
-    format!("unknown-projection:c13:{}", name)
+    if let Some(spec) = name.strip_prefix("frame/") { return frame(state, options, spec); }
+    match name {
+        "diags" => { let d = state.diagnostics.into_updated(&state.ast, &state.files, &options); join(entries(&d)) }
+        "diags-sorted" => { let d = state.diagnostics.into_updated(&state.ast, &state.files, &options); let mut v = entries(&d); v.sort(); join(v) }
+        _ => format!("unknown-projection:c13:{}", name),
+    }
 }
